@@ -283,10 +283,29 @@ def monotone_and_atan2(R, h, hk, oi, kstub_factory, PIDIV2, kp, dp):
     half = mp.pi / 2 * 65536
     tol2 = mp.mpf("8e-5") * 65536
     lo2, hi2 = int(mp.ceil(half - tol2 + mp.mpf("0.01"))), int(mp.floor(half + tol2 - mp.mpf("0.01")))
-    R.verify("atan2/steep", [yi, xi2], [cs], Ds,
-             z3.If(yi > 0, z3.And(cs.out >= lo2, cs.out <= hi2), z3.And(cs.out <= -lo2, cs.out >= -hi2)),
-             also_ub=True, portfolio=("z3", "cvc5"), timeout=300,
+    def steep_int():
+        ob2 = Ob("atan2/steep", "verify", [yi, xi2], [cs], Ds,
+                 z3.If(yi > 0, z3.And(cs.out >= lo2, cs.out <= hi2), z3.And(cs.out <= -lo2, cs.out >= -hi2)),
+                 also_ub=True, portfolio=("z3", "cvc5"), timeout=300,
+                 note="|y/x| >= 2^31 (true angle within 5e-10 of +-pi/2): atan2 within 8e-5 of it, right sign, no UB [INT]")
+        ob2.tag = "int"
+        return ob2
+    # first route: bit-vector encoding with the quotient by specification and the products as MULW + magnitude lemmas
+    ATKB = z3.Function("ATANKB", s64, s64)
+
+    def kstub3(ctx, args):
+        z = args[0]
+        r = ATKB(z)
+        ctx.assume(z3.Implies(z3.And(z >= 0, z <= val(ZMAX)), z3.And(r >= 0, r <= val(KMAX), r <= z + 1)))
+        return r
+    cb = R.call(hs, "atan2", [y, x], opts=E.Opts(stubs={KSYM: kstub3}, div_spec=True, mul_uf=True))
+    Dsb = z3.And(D, x != 0, steep)
+    ob1 = Ob("atan2/steep", "verify", [y, x], [cb], Dsb,
+             z3.If(y > 0, z3.And(cb.out >= val(lo2), cb.out <= val(hi2)), z3.And(cb.out <= val(-lo2), cb.out >= val(-hi2))),
+             also_ub=True, abstract=True, magnitude=True, portfolio=("z3", "cvc5"), timeout=600,
              note="|y/x| >= 2^31 (true angle within 5e-10 of +-pi/2): atan2 within 8e-5 of it, right sign, no UB")
+    ob1.fallback = steep_int
+    R._add(ob1)
     # the same obligation with the divisor fixed to a small constant (division by a constant is linear): cheap, and it is what
     # finds a counterexample quickly when the general query above is too hard to refute
     for xc in (1, -1, 2, -2, 3, -3, 7, -7):
